@@ -320,54 +320,62 @@ def takeUntil {α : Type} (need : Int) : List α → List α → List α
     let acc' := acc ++ [x]
     if (acc'.length : Int) ≥ need then acc' else takeUntil need t acc'
 
+/-- outcome of the vote counter (of one callback / one poll / the whole loop) -/
+inductive CountRes (σ : Type) where
+  | none                                        -- nothing found (yet) / "votes for step is not received"
+  | found (hash : Nat) (votes : List (Vote σ))  -- `bestHash`, `cert.Votes`
+  | panic                                       -- `make([]*types.Vote, 0, necessaryVotesCount)` with a negative capacity
+  deriving Repr
+
 /-- engine.go:523-563: one invocation of the `m.Range` callback.  `iterOrder` is the (arbitrary) iteration order
-of the Go map `roundVotes`.  Result: new `byBlock`, and `some (bestHash, cert.Votes)` when the callback returns
-`false` (found). -/
+of the Go map `roundVotes`.  Result: new `byBlock`, and `found bestHash cert.Votes` when the callback returns
+`false`.  `need` is `necessaryVotesCount` after the subtraction; when it is negative and an approved vote arrives,
+`make(…, 0, need)` panics (engine.go:547). -/
 def visit {σ : Type} (recover : σ → Msg → Option Nat) (appr : Nat → Bool) (iterOrder : RoundVotes σ → RoundVotes σ)
-    (step parentHash : Nat) (need : Int) (bb : ByBlock σ) (v : Vote σ) :
-    ByBlock σ × Option (Nat × List (Vote σ)) :=
+    (step parentHash : Nat) (need : Int) (bb : ByBlock σ) (v : Vote σ) : ByBlock σ × CountRes σ :=
   let bb1 := match bb.lookup v.voted with
     | some _ => bb
     | none => assocSet v.voted [] bb
   let rv := (bb.lookup v.voted).getD []
   let a := voterAddr recover v
-  if (rv.lookup a).isSome then (bb1, none)
-  else if v.parent ≠ parentHash then (bb1, none)
-  else if v.step ≠ step then (bb1, none)
-  else if appr a = false then (bb1, none)
+  if (rv.lookup a).isSome then (bb1, .none)
+  else if v.parent ≠ parentHash then (bb1, .none)
+  else if v.step ≠ step then (bb1, .none)
+  else if appr a = false then (bb1, .none)
   else
     let rv' := assocSet a v rv
     let bb2 := assocSet v.voted rv' bb1
     if (rv'.length : Int) ≥ need then
-      let list := takeUntil need ((iterOrder rv').map (·.2)) []
-      if (list.length : Int) ≥ need then (bb2, some (v.voted, list)) else (bb2, none)
-    else (bb2, none)
+      if need < 0 then (bb2, .panic)
+      else
+        let list := takeUntil need ((iterOrder rv').map (·.2)) []
+        if (list.length : Int) ≥ need then (bb2, .found v.voted list) else (bb2, .none)
+    else (bb2, .none)
 
 /-- one `m.Range(...)` over an enumeration of the round's votes, stopping at the first `found` -/
 def poll {σ : Type} (recover : σ → Msg → Option Nat) (appr : Nat → Bool) (iterOrder : RoundVotes σ → RoundVotes σ)
-    (step parentHash : Nat) (need : Int) : ByBlock σ → List (Vote σ) → ByBlock σ × Option (Nat × List (Vote σ))
-  | bb, [] => (bb, none)
+    (step parentHash : Nat) (need : Int) : ByBlock σ → List (Vote σ) → ByBlock σ × CountRes σ
+  | bb, [] => (bb, .none)
   | bb, v :: rest =>
     match visit recover appr iterOrder step parentHash need bb v with
-    | (bb', some r) => (bb', some r)
-    | (bb', none) => poll recover appr iterOrder step parentHash need bb' rest
+    | (bb', .none) => poll recover appr iterOrder step parentHash need bb' rest
+    | (bb', r) => (bb', r)
 
 /-- engine.go:513-571: the polling loop; `polls` = the enumerations `m.Range` produced at each wake-up until the
-timeout (`byBlock` persists between them); `none` = "votes for step is not received" -/
+timeout (`byBlock` persists between them) -/
 def countLoop {σ : Type} (recover : σ → Msg → Option Nat) (appr : Nat → Bool) (iterOrder : RoundVotes σ → RoundVotes σ)
-    (step parentHash : Nat) (need : Int) : ByBlock σ → List (List (Vote σ)) → Option (Nat × List (Vote σ))
-  | _, [] => none
+    (step parentHash : Nat) (need : Int) : ByBlock σ → List (List (Vote σ)) → CountRes σ
+  | _, [] => .none
   | bb, enum :: more =>
     match poll recover appr iterOrder step parentHash need bb enum with
-    | (_, some r) => some r
-    | (bb', none) => countLoop recover appr iterOrder step parentHash need bb' more
+    | (bb', .none) => countLoop recover appr iterOrder step parentHash need bb' more
+    | (_, r) => r
 
 /-- engine.go:495 `countVotes` given the drawn committee (`none` ⇒ "validators were not setup") -/
 def countVotes {σ : Type} (recover : σ → Msg → Option Nat) (iterOrder : RoundVotes σ → RoundVotes σ)
-    (sv : Option StepValidators) (thr : Nat) (step parentHash : Nat) (polls : List (List (Vote σ))) :
-    Option (Nat × List (Vote σ)) :=
+    (sv : Option StepValidators) (thr : Nat) (step parentHash : Nat) (polls : List (List (Vote σ))) : CountRes σ :=
   match sv with
-  | none => none
+  | none => .none
   | some sv => countLoop recover (fun a => sv.approved.contains a) iterOrder step parentHash (required sv thr) [] polls
 
 /-- types.go:1009 `FullBlockCert.Compress` -/
